@@ -10,11 +10,11 @@ its own structure — neither mentions `jsonOf`, the array windowing or the grou
   (read back through the narrowing table, `narrowScalar`) of a document value, in document order;
   `rm` = whether the trailing array part of a mixed container is announced by the documented
   `"remainder"` key; `dvals`: the scalars only.
-* `plainNode`: the scope of the leaf theorems — value lists (arrays and the trailing part of mixed
-  containers) consist of values only: no operator / `MixedContainer` / parameter tokens and no
-  header token among them.  (Header tokens among values are the recorded finding
-  `header-array-view-duplicates-body`; `key op value` runs inside arrays turn a scalar into a
-  key, which a leaf-by-leaf reading through the narrowing table cannot express.)
+* `runNode`: the scope of the leaf theorems — value lists (arrays and the trailing part of mixed
+  containers) consist of values, `key op value` runs and `MixedContainer` markers; inside a run the
+  scalar is a KEY and reads as a string.  Outside the scope: a header token among the values (the
+  recorded finding `header-array-view-duplicates-body`), parameter tokens among the values, lone
+  operator tokens, a container in key position of a run.
 -/
 namespace Jomini.Json
 open Jomini Jomini.JsonSpec
@@ -58,23 +58,84 @@ def jkeys : JVal → List Bytes
   | .obj kvs => kvs.map (·.1)
   | _ => []
 
-mutual
-def plainNode : Node → Bool
-  | .scalar _ _ => true
-  | .arr _ items => plainItems items
-  | .obj _ _ fields rest => plainFields fields && plainItems rest
-  | .header _ body => plainNode body
-def plainItems : List Item → Bool
-  | [] => true
-  | x :: xs => plainItem x && plainItems xs
-def plainItem : Item → Bool
-  | .val n => plainNode n
+/-! ### the document-side reading of a value list
+
+`values()` of an array (or of the trailing part of a mixed container) is read as follows — this is
+the documented shape of mixed containers (`levels={ 10 0=2 1=2 }` gives `[10,{"0":2},{"1":2}]`),
+stated on the document: a `MixedContainer` marker contributes nothing; a scalar that is followed by
+an operator and a value forms a RUN `key op value`: the scalar is a KEY there and contributes a
+STRING leaf (its decoded bytes, not narrowed), the operator contributes its name (`=` nothing), the
+value its own leaves; anything else contributes its own leaves. -/
+
+def isValItem : Item → Bool
+  | .val _ => true
   | _ => false
-def plainFields : List Field → Bool
+
+def isScalarItem : Item → Bool
+  | .val (.scalar _ _) => true
+  | _ => false
+
+/-- the decoded text of a scalar item (what it is called as a key) -/
+def keyString (enc : Enc) : Item → Bytes
+  | .val (.scalar _ s) => decode enc s
+  | _ => kInvalidKey
+
+def opLeaf (op : Op) : List JVal := if op = .eq then [] else [.str op.name]
+
+/-- the run rule over items paired with their own leaves; `kp` / `opp` = what a key / an operator
+contributes; `skip` counts the operator and value already consumed by a run -/
+def runG (kp : Bytes → List JVal) (opp : Op → List JVal) (enc : Enc) : List (Item × List JVal) → Nat → List JVal
+  | [], _ => []
+  | _ :: xs, skip + 1 => runG kp opp enc xs skip
+  | (x, lv) :: xs, 0 =>
+    match x with
+    | .mixedTok => runG kp opp enc xs 0
+    | _ =>
+      match xs with
+      | (.opTok op, _) :: (_, vl) :: _ => kp (keyString enc x) ++ opp op ++ vl ++ runG kp opp enc xs 2
+      | _ => lv ++ runG kp opp enc xs 0
+
+/-- keys and operator names as string leaves -/
+def runLeaves (enc : Enc) := runG (fun k => [JVal.str k]) opLeaf enc
+/-- values only -/
+def runVals (enc : Enc) := runG (fun _ => []) (fun _ => []) enc
+
+/-- positional side conditions of the run rule (the scope of the leaf theorems): the key of a run
+is a scalar and its value a value; outside runs only values and `MixedContainer` markers occur
+(a lone operator token would be written as `null`) -/
+def okRun : List Item → Nat → Bool
+  | [], _ => true
+  | _ :: xs, skip + 1 => okRun xs skip
+  | x :: xs, 0 =>
+    match x with
+    | .mixedTok => okRun xs 0
+    | _ =>
+      match xs with
+      | .opTok _ :: v :: _ => isScalarItem x && isValItem v && okRun xs 2
+      | _ => isValItem x && okRun xs 0
+
+mutual
+/-- the scope of `C16_scalars_preserved`: value lists consist of values, operator tokens and
+`MixedContainer` markers arranged as `okRun` says — no header token among the values (recorded
+finding `header-array-view-duplicates-body`) and no parameter token among them -/
+def runNode : Node → Bool
+  | .scalar _ _ => true
+  | .arr _ items => runItems items && okRun items 0
+  | .obj _ _ fields rest => runFields fields && runItems rest && okRun rest 0
+  | .header _ body => runNode body
+def runItems : List Item → Bool
   | [] => true
-  | f :: fs => plainField f && plainFields fs
-def plainField : Field → Bool
-  | .mk _ _ v => plainNode v
+  | x :: xs => runItem x && runItems xs
+def runItem : Item → Bool
+  | .val n => runNode n
+  | .opTok _ => true
+  | .mixedTok => true
+  | _ => false
+def runFields : List Field → Bool
+  | [] => true
+  | f :: fs => runField f && runFields fs
+def runField : Field → Bool
+  | .mk _ _ v => runNode v
 end
 
 section
@@ -83,16 +144,17 @@ variable (rm : Bool) (o : Opts) (enc : Enc)
 mutual
 def dleaves : Node → List JVal
   | .scalar q s => [narrowScalar o enc q s]
-  | .arr _ items => dleavesItems items
+  | .arr _ items => runLeaves enc (dleavesItems items) 0
   | .obj _ _ fields rest =>
     dleavesFields fields ++
       (match rest with
        | [] => []
-       | x :: xs => (if rm then [JVal.str kRemainder] else []) ++ dleavesItems (x :: xs))
+       | x :: xs => (if rm then [JVal.str kRemainder] else []) ++ runLeaves enc (dleavesItems (x :: xs)) 0)
   | .header s body => JVal.str (decode enc s) :: dleaves body
-def dleavesItems : List Item → List JVal
+/-- every item with its own leaves -/
+def dleavesItems : List Item → List (Item × List JVal)
   | [] => []
-  | x :: xs => dleavesItem x ++ dleavesItems xs
+  | x :: xs => (x, dleavesItem x) :: dleavesItems xs
 def dleavesItem : Item → List JVal
   | .val n => dleaves n
   | _ => []
@@ -107,12 +169,12 @@ end
 mutual
 def dvals : Node → List JVal
   | .scalar q s => [narrowScalar o enc q s]
-  | .arr _ items => dvalsItems items
-  | .obj _ _ fields rest => dvalsFields fields ++ dvalsItems rest
+  | .arr _ items => runVals enc (dvalsItems items) 0
+  | .obj _ _ fields rest => dvalsFields fields ++ runVals enc (dvalsItems rest) 0
   | .header _ body => dvals body
-def dvalsItems : List Item → List JVal
+def dvalsItems : List Item → List (Item × List JVal)
   | [] => []
-  | x :: xs => dvalsItem x ++ dvalsItems xs
+  | x :: xs => (x, dvalsItem x) :: dvalsItems xs
 def dvalsItem : Item → List JVal
   | .val n => dvals n
   | _ => []
